@@ -32,6 +32,38 @@ pub mod cw_std {
     }
 }
 
+/// With feature `mt_docs`: `sylvia::cw_std::from_json(bytes)` ignores the bytes and decodes the
+/// serde-doc the harness registered in `REGISTERED` (one of four fixed shapes).  This puts the
+/// generated `impl cw_multi_test::Contract` (which takes JSON BYTES) under the solver at the serde
+/// data-model level; the JSON text layer stays outside the claim.
+#[cfg(all(feature = "mt_docs", not(feature = "intercept_json")))]
+pub mod cw_std {
+    pub use real_sylvia::cw_std::*;
+    use support::doc::{Msg, Obj, EMPTY0};
+
+    /// which shape is registered: 0 = {name:{}}, 1 = {name:{k:v}}, 2 = {name:{k1:v1,k2:v2}}, 3 = flat {k1:v1,k2:v2}
+    pub static mut DOC_KIND: u8 = 0;
+    pub static mut DOC_M0: Msg<'static, 0> = Msg { name: "", body: EMPTY0 };
+    pub static mut DOC_M1: Msg<'static, 1> = Msg { name: "", body: Obj { keys: [""], vals: [support::doc::num(0)] } };
+    pub static mut DOC_M2: Msg<'static, 2> = Msg { name: "", body: Obj { keys: ["", ""], vals: [support::doc::num(0), support::doc::num(0)] } };
+    pub static mut DOC_FLAT: Obj<'static, 2> = Obj { keys: ["", ""], vals: [support::doc::num(0), support::doc::num(0)] };
+    pub static mut FROM_JSON_CALLS: u32 = 0;
+
+    pub fn from_json<T: real_sylvia::serde::de::DeserializeOwned>(_bytes: impl AsRef<[u8]>) -> StdResult<T> {
+        #[allow(static_mut_refs)]
+        let r = unsafe {
+            FROM_JSON_CALLS += 1;
+            match DOC_KIND {
+                0 => T::deserialize(DOC_M0),
+                1 => T::deserialize(DOC_M1),
+                2 => T::deserialize(DOC_M2),
+                _ => T::deserialize(DOC_FLAT),
+            }
+        };
+        r.map_err(|_| StdError::generic_err("decode"))
+    }
+}
+
 pub mod serde_json {
     pub use real_sylvia::serde_json::*;
     pub fn to_string<T: ?Sized>(_v: &T) -> Result<String, ()> {
